@@ -148,6 +148,18 @@ E('fillleft', lambda s: etl.fillleft(s), stream=0, group='fills')
 # maps
 E('fieldmap', lambda s: etl.fieldmap(s, OrderedDict([('a', 'f0'), ('b', ('f1', lambda v: v.upper())), ('c', lambda r: r['f2'] * 2), ('d', '{f0} + 1')])),
   stream=0, group='maps')
+
+
+def _fieldmap_incremental(s, spec):
+    # the documented incremental style: an empty fieldmap view, mappings added afterwards
+    v = etl.fieldmap(s)
+    for k, m in spec:
+        v[k] = m
+    return v
+
+
+E('fieldmap-incremental', lambda s: _fieldmap_incremental(s, [('a', 'f0'), ('twice', lambda r: r['f2'] * 2)]), stream=0, group='maps')
+E('fieldmap-incremental-other', lambda s: _fieldmap_incremental(s, [('b', 'f1'), ('c', 'f2'), ('n', ('f0', {1: 'one'}))]), stream=0, group='maps')
 E('rowmap', lambda s: etl.rowmap(s, lambda r: [r[0], r[1]], ['a', 'b']), stream=0, group='maps')
 E('rowmapmany', lambda s: etl.rowmapmany(s, lambda r: [[r[0], 1], [r[0], 2]], ['a', 'b']), stream=0, group='maps')
 E('rowgroupmap', lambda s: etl.rowgroupmap(s, 'f0', lambda k, rows: [(k, len(list(rows)))], header=['f0', 'n']), group='maps')
